@@ -1,27 +1,46 @@
 (* C03: make_diff is a faithful, lossless description of old versus new — the lemmas
    cited by Properties/C03.v.  The work is in DiffProofsLib / Annot / Self / Lossless /
-   Order; this file states the results for every rule matcher. *)
+   Order / Moved; this file states the results for every rule matcher. *)
 From Coq Require Import List String Bool Arith.
 From Annet Require Import Base.Str Base.Tree Model.Rulebook Model.Diff Spec.P_C03 Proofs.DiffBasics
   Proofs.DiffProofsLib Proofs.DiffProofsAnnot Proofs.DiffProofsSelf Proofs.DiffProofsLossless
-  Proofs.DiffProofsOrder.
+  Proofs.DiffProofsOrder Proofs.DiffProofsMoved.
 Import ListNotations.
 
 Section C03.
   Variable rmatch : string -> string -> option (list string).
 
+  (* comparing a configuration with itself reports no change at any depth *)
   Theorem diff_self_empty : forall rs x, wf x -> strip_unchanged (make_diff rmatch rs x x) = [].
   Proof. exact (diff_self_empty_lib rmatch). Qed.
 
+  (* ops exact at every depth, every known row accounted for, entries carry rule and key *)
   Theorem diff_lossless : forall rs old new, wf old -> wf new ->
     lossless (annot_f rmatch rs old) (annot_f rmatch rs new) (make_diff rmatch rs old new) = true.
   Proof. exact (diff_lossless_lib rmatch). Qed.
 
+  (* rows of %ordered rules appear in new's order, at every depth *)
   Theorem diff_order_ok : forall rs old new, wf old -> wf new ->
     order_ok (annot_f rmatch rs new) (make_diff rmatch rs old new) = true.
   Proof. exact (diff_order_ok_lib rmatch). Qed.
+
+  (* top-level MOVED characterisation for %ordered rules *)
+  Theorem diff_moved_ok : forall rs old new, wf old -> wf new ->
+    moved_ok_top (annot_f rmatch rs old) (annot_f rmatch rs new) (make_diff rmatch rs old new) = true.
+  Proof. exact (diff_moved_ok_lib rmatch). Qed.
+
+  Theorem diff_P_C03 : forall rs old new, wf old -> wf new ->
+    P_C03 rmatch (rs, old, new) (make_diff rmatch rs old new) = true.
+  Proof.
+    intros rs old new Ho Hn. unfold P_C03.
+    rewrite diff_lossless, diff_order_ok, diff_moved_ok by assumption. cbn [andb].
+    destruct (forest_eqb old new) eqn:E; [|reflexivity].
+    apply forest_eqb_eq in E. subst new. rewrite diff_self_empty by assumption. reflexivity.
+  Qed.
 End C03.
 
 Print Assumptions diff_self_empty.
 Print Assumptions diff_lossless.
 Print Assumptions diff_order_ok.
+Print Assumptions diff_moved_ok.
+Print Assumptions diff_P_C03.
